@@ -149,7 +149,37 @@ func c02Signature(src string, args []value.Value, on, off c02Result) string {
 	return "optimizer-changes-outcome"
 }
 
+// c02ExportHelpers: the repository's own helper library (export.AddFileHelpers) through the optimizer: dataFile(...) is pure, its
+// builder methods are folded when the receiver is constant; the folded program gives what the unfolded one gives
+func c02ExportHelpers(c *Ctx) {
+	for _, src := range c10ExportPrograms {
+		for a := 0; a <= 5; a++ {
+			var outs [2]string
+			for i, opt := range []bool{true, false} {
+				f, _, err := c10ExportFG(opt).Generate(src, "a")
+				if err != nil {
+					outs[i] = "GENERR"
+					continue
+				}
+				v, err := f.Eval(value.Int(a))
+				if err != nil {
+					outs[i] = "ERR"
+				} else {
+					outs[i] = c10ExportShow(v)
+				}
+			}
+			c.Case(fmt.Sprintf("export-helpers|%d|%s", a, src), true)
+			c.Count("export-helpers")
+			if outs[0] != outs[1] {
+				c.Violation("optimizer-changes-outcome", "optimizer on and off give different outcomes for a program that uses the file helpers",
+					map[string]any{"program": src, "argument": a, "optimized": trunc(outs[0], 300), "unoptimized": trunc(outs[1], 300)})
+			}
+		}
+	}
+}
+
 func runC02(c *Ctx) {
+	c02ExportHelpers(c)
 	c.rule = "every program is generated on two fresh value.New() generators (default optimizer; SetOptimizer(nil) before first use) with a pure and an impure counting static function; compared: outcome (bit-exact; relative 1e-12 only for same-operator float chains mixing constants and variables), impure calls during Generate (must be 0), per-evaluation impure call log. Cases: (1) exhaustive chains (c1 op x) op c2, (x op c1) op c2, c1 op (x op c2), c1 op c2 for every operator x operand triple over 13 operands of 6 types; (1c) closure fields named like every map method and locals named like static functions, called with constants; (1d) 42 typed positions x 19 constants of every type (plain and behind a constant let); (2) random programs of the C01 generator rich in constants (scope-free subterms), with tickI/tickP wrappers and constant conditions; non-trivial = distinct program whose optimized AST differs from the unoptimized AST"
 	c.assume = append(c.assume, "host-registered functions are represented by the harness' counting functions; randomConst/random excluded")
 
